@@ -7,6 +7,7 @@ CONSTANTS
  DedupMode = "peer+id"
  AtomicDedup = TRUE
  AllowRelay = FALSE
+ SigCache = "none"
  GenLen = 12
 INVARIANTS Emit
 CHECK_DEADLOCK FALSE
